@@ -307,6 +307,63 @@ func cmdSelftest() int {
 			return 2
 		}
 	}
+	if !simpSelfcheck(ts) {
+		return 2
+	}
 	fmt.Println("selftest ok")
 	return 0
+}
+
+// simpSelfcheck discharges, with the solver, that the range-based simplifier rules (division by a
+// constant over a narrow range, bounds of add/sub/neg/mul) rewrite terms to equal terms and that
+// the cached unsigned bounds contain the term: raw (unsimplified) vs simplified must be unsat-different.
+func simpSelfcheck(ts *TermStore) bool {
+	s, err := NewSolver("z3-new", 20000)
+	if err != nil {
+		fmt.Println("selftest: cannot start z3-new", err)
+		return false
+	}
+	defer s.Close()
+	d := ts.ZExt(ts.Var("d10", 10), 64)
+	e := ts.ZExt(ts.Var("e4", 4), 64)
+	bases := []uint64{0, 5, 999, 1<<63 - 1024, 1 << 63, ^uint64(0) - 1023, 123456789012}
+	var xs []*Term
+	for _, b := range bases {
+		x := ts.Bin(OpAdd, d, ts.Const(64, b))
+		xs = append(xs, x, ts.Neg(x), ts.Bin(OpSub, ts.Const(64, b|1<<40), d), ts.Bin(OpMul, x, ts.Const(64, 3)),
+			ts.Bin(OpAdd, ts.Bin(OpMul, e, ts.Const(64, 1000)), x), ts.Bin(OpAdd, x, ts.Const(64, -b)))
+	}
+	n := 0
+	check := func(what string, bad *Term) bool {
+		s.stack = nil
+		r, m, _ := s.Check([]*Term{bad}, nil)
+		n++
+		if r != Unsat {
+			fmt.Println("selftest: simplifier rule not valid:", what, r, m)
+			return false
+		}
+		return true
+	}
+	for _, x := range xs {
+		lo, hi := ts.ubounds(x)
+		out := ts.mk(OpOr, 0, 0, "", ts.mk(OpULt, 0, 0, "", x, ts.Const(64, lo)), ts.mk(OpULt, 0, 0, "", ts.Const(64, hi), x))
+		if !check(fmt.Sprintf("ubounds %s in [%d,%d]", x, lo, hi), out) {
+			return false
+		}
+		for _, c := range []uint64{3, 10, 100, 1000, 1000000000} {
+			k := ts.Const(64, c)
+			for _, op := range []Op{OpUDiv, OpURem, OpSDiv, OpSRem, OpMul} {
+				raw := ts.mk(op, 64, 0, "", x, k)
+				simp := ts.Bin(op, x, k)
+				if raw == simp {
+					continue
+				}
+				if !check(fmt.Sprintf("%s %s %d", opNames[op], x, c), ts.mk(OpNot, 0, 0, "", ts.mk(OpEq, 0, 0, "", raw, simp))) {
+					return false
+				}
+			}
+		}
+	}
+	fmt.Printf("selftest: %d simplifier-rule queries unsat\n", n)
+	return true
 }
